@@ -228,13 +228,18 @@ theorem search_offset (p : Bytes) : ∀ (t : Bytes) (off : Nat), search p t off 
       simp only [Function.comp]
       omega
 
-/-- what matching.go computes for a plain find: the manual's answer with the start offset
-    `k = posrelatI(init) - 1` subtracted from both indices (the defect, characterised exactly) -/
-theorem goFindPlain_eq (s p : Bytes) (hs : s.length < 2 ^ 63) (init : I64) :
-    goFindPlain s p init =
-      (findPlain s p init.toInt).map fun (a, b) =>
-        ((a : Int) - (posrelatI init.toInt s.length - 1 : Nat), (b : Int) - (posrelatI init.toInt s.length - 1 : Nat)) := by
-  have hL := lenOf_toInt s hs
+theorem toInt_ofNat_small (n : Nat) (h : n < 2 ^ 63) : (BitVec.ofNat 64 n).toInt = n := by
+  rw [BitVec.toInt_eq_toNat_cond]
+  simp only [BitVec.toNat_ofNat]
+  have : n % 2 ^ 64 = n := Nat.mod_eq_of_lt (by omega)
+  rw [this]
+  split <;> omega
+
+/-- matching.go's plain find is the manual's, for every subject, pattern and int64 init: the Go `int`
+    additions `si+i+1`, `si+i+len(ptn)` cannot wrap because they are bounded by `len(s) + 1` -/
+theorem goFindPlain_eq (s p : Bytes) (hs : s.length + 1 < 2 ^ 63) (init : I64) :
+    goFindPlain s p init = (findPlain s p init.toInt).map fun (a, b) => ((a : Int), (b : Int)) := by
+  have hL := lenOf_toInt s (by omega)
   unfold goFindPlain findPlain
   rw [goFindStart_eq s.length (lenOf s) init hL]
   simp only
@@ -242,13 +247,26 @@ theorem goFindPlain_eq (s p : Bytes) (hs : s.length < 2 ^ 63) (init : I64) :
   by_cases hk : k > s.length
   · simp [hk]
   · simp only [hk, if_false]
-    have : (BitVec.ofNat 64 k).toNat = k := by
+    have hkn : (BitVec.ofNat 64 k).toNat = k := by
       simp only [BitVec.toNat_ofNat]; exact Nat.mod_eq_of_lt (by omega)
-    rw [this, search_offset p (s.drop k) k]
-    cases search p (s.drop k) 0 with
+    rw [hkn, search_offset p (s.drop k) k]
+    cases hsr : search p (s.drop k) 0 with
     | none => simp
     | some o =>
+      obtain ⟨_, h2, h3, _⟩ := Proofs.C19Str.search_some p _ _ _ hsr
+      simp only [Nat.sub_zero, List.length_drop] at h2
+      have hpl : p.length ≤ s.length - k - o := by
+        rw [List.isPrefixOf_iff_prefix] at h3
+        have := h3.length_le
+        simp only [Nat.sub_zero, List.length_drop] at this
+        exact this
+      have e1 : BitVec.ofNat 64 k + BitVec.ofNat 64 o + 1#64 = BitVec.ofNat 64 (k + o + 1) := by
+        rw [BitVec.ofNat_add, BitVec.ofNat_add]
+      have e2 : BitVec.ofNat 64 k + BitVec.ofNat 64 o + BitVec.ofNat 64 p.length = BitVec.ofNat 64 (k + o + p.length) := by
+        rw [BitVec.ofNat_add, BitVec.ofNat_add]
+      simp only [Option.map_some, e1, e2]
+      rw [toInt_ofNat_small _ (by omega), toInt_ofNat_small _ (by omega)]
       simp
-      constructor <;> omega
+      omega
 
 end GoluaVerif.Proofs.C19Pos
